@@ -1258,6 +1258,7 @@ template <typename T>
   {
     if (is_null(t))
     {
+      stream_sentry s(os);
       os << "nullptr";
     }
     else
@@ -1272,6 +1273,7 @@ template <typename T>
       std::ostream& os,
       std::nullptr_t)
   {
+    stream_sentry s(os);
     os << "nullptr";
   }
 
